@@ -340,6 +340,19 @@ pub mod c07 {
                 ensure!(got == want, "ArrayBackedIntervalTree of {:?} (start, width), indexed: its {} taken before {} later inserts into the original answers the query {}..{} with {:?}, expected {:?}", c.inserts, name, c.later.len(), qs, qe, got, want);
             }
         }
+        // one result buffer shared between trees (one tree per chromosome, some without annotations): a query on
+        // an indexed tree without entries replaces the buffer's content like any other query
+        {
+            let mut empty: ArrayBackedIntervalTree<i64, usize> = ArrayBackedIntervalTree::new();
+            empty.index();
+            let mut buf = acopies[0].1.find(0..300);
+            let filled = buf.len();
+            empty.find_into(0..300, &mut buf);
+            ensure!(buf.is_empty(), "ArrayBackedIntervalTree without entries (indexed): find_into(0..300) leaves {} entries in a buffer that held {} results of a query on another tree", buf.len(), filled);
+            // and the other way round: a buffer last used on the empty tree
+            acopies[0].1.find_into(0..300, &mut buf);
+            ensure!(buf.len() == model.len(), "ArrayBackedIntervalTree of {:?}: find_into(0..300) into a buffer last used on another tree finds {} entries, {} are stored", c.inserts, buf.len(), model.len());
+        }
         // a copy is a full tree: it accepts further inserts
         for (name, cp) in &copies {
             let mut t = cp.clone();
